@@ -70,7 +70,10 @@ def _strategy(tier, var):
             "kind": kind, "dtype": dtype, "family": fam,
             "sigma_cells": draw(gen.floats(2.6, 3.0, 32)) if dim == 2 else draw(gen.floats(1.5, 1.9, 32)),
             "centre": draw(st.lists(gen.floats(-1.0, 1.0, 32), min_size=3, max_size=3)),
-            "peak": draw(gen.floats(0.5, 4.0, 32)),
+            # the equations are linear in the passive field and the error measure is relative: weak and strong structures are held
+            # to the same bounds (Lamb-Oseen: the strength also sets the swirl velocity, kept O(1))
+            "peak": draw(st.one_of(gen.floats(0.5, 4.0, 32), gen.floats(0.5, 4.0, 32), gen.log_uniform(1e-7, 1.0))) if kind == "ns2d"
+            else draw(st.one_of(gen.floats(0.5, 4.0, 32), gen.log_uniform(1e-7, 1e3))),
             "age_ratio": draw(gen.floats(0.15, 0.4, 32)),   # T / t0 : how much the structure diffuses during the run
             "speed_dir": [ang, ang2],
             "disp_cells": draw(gen.floats(2.0, 3.5, 32)),
@@ -196,7 +199,7 @@ def _body(case, ctx):
         if errs[y] > errs[x] * 1.02:
             raise Violation(f"{key}: error grows under refinement: e({x}) = {errs[x]:.3e} < e({y}) = {errs[y]:.3e} (family {fam})")
     ctx.note(nontrivial=len(fam) >= 3 and case["disp_cells"] >= 2.0 and (1 - (1 / (1 + case["age_ratio"])) ** (1 if case["kind"] != "passive3d" else 1.5)) >= 0.05,
-             labels=[key, f"family_{len(fam)}", f"finest_{fam[-1] // 16 * 16}plus", f"aspect_{case['aspect']}"]
+             labels=[key, "weak_structure_peak_below_1e-3" if case["peak"] < 1e-3 else "peak_order_one", f"family_{len(fam)}", f"finest_{fam[-1] // 16 * 16}plus", f"aspect_{case['aspect']}"]
              + (["off_palette_resolution"] if any(n not in RES[2] + RES[3] for n in fam) else []))
 
 
